@@ -204,13 +204,25 @@ class _RootNameCollector(cst.CSTVisitor):
         node.value.visit(self)
         return False
 
+    def visit_Lambda(self, node: cst.Lambda) -> bool:  # noqa: N802
+        # Lambda parameters are bound by the lambda itself, not read from the test's scope.
+        inner = _RootNameCollector()
+        node.body.visit(inner)
+        self.names.update(inner.names - set(_params_names(node.params)))
+        for param in (*node.params.posonly_params, *node.params.params, *node.params.kwonly_params):
+            if param.default is not None:
+                param.default.visit(self)
+        return False
+
     def visit_Attribute(self, node: cst.Attribute) -> bool:  # noqa: N802
         chain = _dotted_chain(node)
         if chain is not None:
             if self._in_target == 0:
                 self.names.add(chain[0])
             return False
-        return True
+        # ``f(x).attr`` / ``type(x).__module__``: only the base expression reads names, ``attr`` is a member name.
+        node.value.visit(self)
+        return False
 
     def visit_Name(self, node: cst.Name) -> bool:  # noqa: N802
         if self._in_target == 0:
@@ -816,7 +828,10 @@ class CstStatementDeserializer:
                 # the statement it is attached to.
                 if bound_stmt.bound_variable is not None:
                     assertion.source = bound_stmt.bound_variable
-                bound_stmt.assertions.append(assertion)
+                # The assert observes the state after the most recently admitted statement
+                # (which may have mutated the object), not the state right after the binding.
+                last_stmt = state.testcase.get_statement(state.testcase.size() - 1)
+                last_stmt.assertions.append(assertion)
             return Disposition.ASSERTION_LIFTED
 
         names = _RootNameCollector.collect(small)
